@@ -36,6 +36,7 @@ def run(v, tier, seed):
              "flat group size_bytes with boundary header values (GroupIter.tla huge-header vectors)")
     fold_sub(v, "C18", tier, seed, lambda s: "size_bytes" in s,
              "trait-level size_bytes (Traits.tla)")
-    return run_view_check(v, tier, seed, want, [viewpipe.view_results, viewpipe.header_results, viewpipe.visit_results, viewpipe.gen_view_results, viewpipe.gen_visit_results],
+    return run_view_check(v, tier, seed, want, [viewpipe.view_results, viewpipe.header_results, viewpipe.visit_results, viewpipe.gen_view_results, viewpipe.gen_visit_results,
+                                                viewpipe.repo_view_results, viewpipe.repo_visit_results],
                           "size_bytes of message / every group / entry / data member vs the length of the SBE image part",
                           "SizesAgree + ImageSizes model-checked; run-time size_bytes of every view compared with the image")
